@@ -94,6 +94,18 @@ def _isolated_shard(t, pf, of):
 
 
 def main():
+    # scratch space of this run (files written by C13/C14 cases, ...): pool workers leave through os._exit, so their atexit
+    # handlers never run; the directory is owned and removed here instead
+    import tempfile
+    scratch = tempfile.mkdtemp(prefix='dadi-verif-run-', dir='/var/tmp')
+    os.environ['DADI_VERIF_SCRATCH'] = scratch
+    try:
+        return _main()
+    finally:
+        shutil.rmtree(scratch, ignore_errors=True)
+
+
+def _main():
     ap = argparse.ArgumentParser()
     ap.add_argument('prop')
     ap.add_argument('--tier', default=os.environ.get('VERIF_TIER', 'quick'), choices=['quick', 'thorough'])
